@@ -24,7 +24,7 @@ var vz = rx.Var("z")
 var c07Items = func() []item {
 	var out []item
 	vals := []rx.Val{
-		rx.Int(0), rx.Int(-1), rx.Int(1 << 62), rx.Str("fresh"), rx.Str(""), rx.Str("read"), rx.Str("x"), rx.Date(0), rx.Date(1700000000),
+		rx.Int(0), rx.Int(-1), rx.Int(1 << 62), rx.Str("fresh"), rx.Str(""), rx.Str("read"), rx.Str("x"), rx.Date(0), rx.Date(1700000000), rx.Date(1 << 34), rx.Date(253402300799), // 2514 and 9999: beyond the int64-nanosecond range
 		rx.Bytes([]byte{}), rx.Bytes([]byte{0, 255}), rx.Bool(true), rx.Bool(false),
 		rx.SetOf(rx.Int(1), rx.Int(2)), rx.SetOf(rx.Str("a"), rx.Str("read")), rx.SetOf(rx.Bytes([]byte{1}), rx.Bytes([]byte{2})), rx.SetOf(rx.Date(5)), rx.SetOf(rx.Bool(true), rx.Bool(false)),
 	}
@@ -225,7 +225,7 @@ func init() {
 		ID:        "C07",
 		Level:     "model_checking",
 		Technique: "explicit enumeration of build/append/seal/serialize/unmarshal histories over a feature-covering item alphabet on the real code; Serialize() decoded by an independent protobuf reader and compared with the supplied Datalog",
-		Rule:      "contents: every block made of <= 2 (thorough: <= 3) of 46 items (one per term type, set element type, operator, nesting shape, default/fresh/empty string) as authority block and as appended block after three different parents (shared, disjoint, no symbols), with and without context and root key id; histories: every sequence of 1-3 blocks of a 5-block alphabet whose blocks reuse each other's strings, x sealed/unsealed x every position of a Serialize+Unmarshal. Oracle: independent decoding + published symbol rules give back exactly the supplied facts/rules/checks/context, version 3; Unmarshal(bytes) prints the same, has the same revocation ids and key id, authorizes a 3-authorizer panel the same, and re-serializes byte-identically; harness-signed tokens whose block version is absent/0/1/2/4/2^32-1 are rejected. states = tokens checked, transitions = builder/append/seal/reload operations. Non-trivial = block with at least one item; distinct by construction.",
+		Rule:      "contents: every block made of <= 2 (thorough: <= 3) of 48 items (one per term type, set element type, operator, nesting shape, default/fresh/empty string) as authority block and as appended block after three different parents (shared, disjoint, no symbols), with and without context and root key id; histories: every sequence of 1-3 blocks of a 5-block alphabet whose blocks reuse each other's strings, x sealed/unsealed x every position of a Serialize+Unmarshal. Oracle: independent decoding + published symbol rules give back exactly the supplied facts/rules/checks/context, version 3; Unmarshal(bytes) prints the same, has the same revocation ids and key id, authorizes a 3-authorizer panel the same, and re-serializes byte-identically; harness-signed tokens whose block version is absent/0/1/2/4/2^32-1 are rejected. states = tokens checked, transitions = builder/append/seal/reload operations. Non-trivial = block with at least one item; distinct by construction.",
 		Assume:    []string{"internal/wire transcribes the published schema.proto and default symbol table", "duplicate facts are refused by the builders (ErrDuplicateFact) and are not generated"},
 		Spaces: func(c *sup.Ctx) []*sup.Space {
 			contents := itemSets(c07Items, 2)
@@ -410,7 +410,7 @@ func init() {
 				w.Class("faithful")
 				w.NontrivialByIndex()
 			}}
-			return []*sup.Space{single, hist, ver, fork, c07OverlapSpace(), c07DecoderSpace()}
+			return []*sup.Space{single, hist, ver, fork, c07OverlapSpace(), c07DecoderSpace(), c07UnencodableSpace()}
 		},
 	})
 }
